@@ -3,6 +3,7 @@ mod c01;
 mod c02;
 mod c03;
 mod c09;
+mod c12;
 mod c15;
 
 use simk::runner::{harness_error, main_for, Check};
@@ -18,6 +19,7 @@ fn main() {
         "C03" => &c03::C03,
         "C04" => &c03::C04,
         "C09" => &c09::C09,
+        "C12" => &c12::C12,
         "C15" => &c15::C15,
         o => harness_error(&format!("no check for property {o}")),
     };
